@@ -1,7 +1,39 @@
 import FormulaeModel.Driver.Base
+import FormulaeModel.Driver.C04
+import FormulaeModel.Spec.C06
 namespace FormulaeModel.Driver.C06
-open Lean FormulaeModel FormulaeModel.Driver
+open Lean FormulaeModel FormulaeModel.Driver FormulaeModel.Design FormulaeModel.Driver.C04
 
-def handle (_op : String) (_j : Json) : Option Json := none
+/-- Spec.C06 on what the implementation returned: the new-data matrix equals the selected
+training rows; plus the defect classes of the (formula, training frame, new frame) triple -/
+def specC06 (j : Json) : Json :=
+  let s := getStr j "formula"
+  match Scanner.scan s.toList with
+  | .error _ => errJ "scan"
+  | .ok ts =>
+    match Parser.parse Generated.parserTable ts with
+    | .error _ => errJ "parse"
+    | .ok e =>
+      let frame := frameOfJson ((j.getObjVal? "frame").toOption.getD Json.null)
+      let names := namesOfJson ((j.getObjVal? "names").toOption.getD Json.null)
+      let env : Env := { frame, names }
+      let checks := (getArr j "checks").map (fun c =>
+        let idx := (getArr c "idx").filterMap (fun x => x.getNat?.toOption)
+        let train := matrixOfJson ((c.getObjVal? "train").toOption.getD Json.null)
+        let newEnv : Env := { frame := frame.rows idx, names }
+        let classes :=
+          (if Spec.C06.classD13 env newEnv e then ["D13"] else []) ++
+          (if Spec.C06.classD14 env newEnv e then ["D14"] else [])
+        match c.getObjVal? "new" with
+        | .ok (.arr a) =>
+          Json.mkObj [("holds", Spec.C06.holds train (matrixOfJson (.arr a)) idx),
+                      ("classes", jStrs classes)]
+        | _ => Json.mkObj [("holds", false), ("classes", jStrs classes)])
+      Json.mkObj [("checks", Json.arr checks.toArray)]
+
+def handle (op : String) (j : Json) : Option Json :=
+  match op with
+  | "c06_spec" => some (specC06 j)
+  | _ => none
 
 end FormulaeModel.Driver.C06
